@@ -109,6 +109,17 @@ func tryParseFloat32(s []byte) (float32, error) {
 //
 // For example, roundUpTo(0.0001, 100) -> 0.01.
 func roundUpTo(value float32, granularity float64) float32 {
+	// A value which already is a multiple of 1/granularity, as closely as a
+	// float32 can hold it, stays as it is.  Otherwise the representation
+	// error of e.g. 0.3 (0.300000012) would round it up to 0.31, and
+	// reading a printed value would change it again.
+	if value == 0 {
+		// Also for a negative zero.
+		return 0
+	}
+	if nearest := float32(math.Round(float64(value)*granularity) / granularity); nearest == value {
+		return value
+	}
 	if value > 0 {
 		return float32(math.Ceil(float64(value)*granularity) / granularity)
 	} else if value < 0 {
